@@ -80,9 +80,11 @@ def sweep(tier, seed):
                     fails.append({'input': {'shape': list(shape), 'edges': edges, 'op': f'dataset {sym} dataset'}, 'observed': probs[:3], 'expected': 'C08 oracle'})
             # dataset o number / array
             for sym, f in ops.items():
-                for c in consts + ['array']:
+                for c in consts + ['array', 'uint8 array']:
                     n += 1
                     cc = np.array([(-1) ** k * (k + 1.0) for k in range(size)]).reshape(shape) if c == 'array' else c
+                    if c == 'uint8 array':
+                        cc = np.arange(1, size + 1, dtype=np.uint8).reshape(shape)          # counts: an unsigned dtype
                     sa = _snap(a)
                     r = f(a, cc)
                     probs = _wf(r, f'a {sym} {c}')
@@ -208,7 +210,7 @@ def sweep(tier, seed):
                 if probs:
                     fails.append({'input': {'datasets': label, 'op': f'dataset {sym} {kind}'}, 'observed': probs[:3], 'expected': 'C08 oracle'})
     return {'name': 'dataset-arithmetic-native', 'evaluations': n, 'distinct': n, 'failures': fails[:10], 'exhaustive': False,
-            'bound': f'shapes {shapes}, bins as edges and centres, finite values of either sign; dataset o dataset, dataset o number in {consts}, dataset o array for + - * /; '
+            'bound': f'shapes {shapes}, bins as edges and centres, finite values of either sign; dataset o dataset, dataset o number in {consts}, dataset o array (float and unsigned integer) for + - * /; '
                      'copy independence (writes into the copy incl. its bins), squeeze, one chain; exact operands (all errors zero) on either side x right operand with / without bins; a mask of a mask; 0-d datasets and integer-valued datasets with datasets and numbers; relative tolerance 1e-12 on the error formulas',
             'samples': [{'shape': [2, 2], 'edges': True, 'op': 'dataset * -1'}]}
 
